@@ -69,6 +69,7 @@ def induct(fv, h, st):
     svs = [SV(v, t) for v, t in zip(vars_, ptys)]
     app = f(*vars_)
     concl = z3.ForAll(vars_, z3.Implies(app, S(svs)), patterns=[app])
+    # (no typing guard: the conclusion is wanted for every argument tuple on which G holds)
     fv.add_fact(st, z3.Implies(z3.And(*closed), concl))
 
 
@@ -127,6 +128,8 @@ def verify_function(fv):
         sv = E.fresh(n, ty)
         st.env[n] = sv
         fv.add_fact(st, fv.typed_fact(sv.term, ty))
+        for f in fv.deep_facts(sv.term, ty):
+            fv.add_fact(st, f)
         if ty.strip_opt().is_obj:
             from .heap import ALLOC0
             fv.add_fact(st, z3.Implies(sv.term != P.none, z3.Select(ALLOC0, sv.term)))
